@@ -226,6 +226,23 @@ func checkC13(c C13Case, o *Obs) (err error) {
 }
 
 func exhaustiveC13(thorough bool, emit func(C13Case) bool) {
+	// Real-data-shaped DNA (homopolymer runs at every alignment, microsatellites, poly-A tails,
+	// mixed case) of every length up to 300 and on the size ladder, and its packed form.
+	for n := 1; n <= 300; n++ {
+		s := realDNA(n, n, false, n%2 == 0)
+		if !emit(C13Case{Kind: "dna", Data: s, Spare: n % 4}) || !emit(C13Case{Kind: "dna", Data: append(bytes.Clone(s), bytes.Repeat([]byte("A"), n%23)...), Dst: gen.B{7}}) {
+			return
+		}
+		if !emit(C13Case{Kind: "packed", Data: ref.Pack2Bit(s)}) || !emit(C13Case{Kind: "packed", Data: bytes.Repeat([]byte{byte(n), byte(n)}, 1+n%9)}) {
+			return
+		}
+	}
+	for i, n := range sizeLadder {
+		s := realDNA(n, i, false, true)
+		if !emit(C13Case{Kind: "dna", Data: s, Spare: i % 4}) || !emit(C13Case{Kind: "packed", Data: ref.Pack2Bit(s)}) {
+			return
+		}
+	}
 	// Ntoi on all 256 bytes.
 	all := make([]byte, 256)
 	for i := range all {
